@@ -34,8 +34,28 @@ Silent == {[kind |-> "silent", formula |-> f[1], num |-> f[2], den |-> f[3]] :
              f \in {<<"1+-2", -1, 1>>, <<"1+-x", -1, 1>>, <<"x+-y*2", -4, 1>>, <<"1--2", 3, 1>>, <<"2*-3", -6, 1>>, <<"2/-3", -2, 3>>,
                     <<"2**-1", 1, 2>>, <<"-(-x)", 2, 1>>, <<"--x", 2, 1>>, <<"1+ -2", -1, 1>>, <<"(1)+-(2)", -1, 1>>, <<"y*x+-1", 5, 1>>,
                     <<"1-+2", -1, 1>>, <<"+1", 1, 1>>}}
+\* ---- conditional and logical expressions ----
+Operands == {Num(1), Num(2), Num(3), Var("x"), Var("y"), Bin("+", Var("x"), Num(1)), Bin("-", Var("y"), Num(1)), Bin("*", Num(2), Var("x")),
+             Bin("*", Var("x"), Var("y")), Neg(Var("x")), Bin("*", Bin("+", Var("x"), Num(1)), Num(2)), Bin("/", Var("x"), Num(2))}
+Cmps == {Cmp(op, a, b) : op \in CmpOps, a \in Operands, b \in Operands}
+\* representatives that hold / do not hold at (x, y) = (2, 3), equalities included
+Reps == {Cmp("<", Var("x"), Var("y")), Cmp("<", Var("y"), Var("x")), Cmp(">=", Bin("+", Var("x"), Num(1)), Var("y")), Cmp(">", Bin("+", Var("x"), Num(1)), Var("y")),
+         Cmp("==", Bin("*", Num(2), Var("x")), Bin("+", Var("y"), Num(1))), Cmp("<=", Var("y"), Num(2))}
+L2 == {And(a, b) : a \in Reps, b \in Reps} \cup {Or(a, b) : a \in Reps, b \in Reps} \cup {Not(a) : a \in Reps}
+Rep2 == {Cmp("<", Var("x"), Var("y")), Cmp("<", Var("y"), Var("x"))}
+L3 == UNION {{Or(a, And(b, c)), Or(And(a, b), c), And(a, Or(b, c)), And(Or(a, b), c), And(a, And(b, c)), Or(a, Or(b, c)), Not(And(a, Not(b))), And(Not(a), Or(b, c))} :
+             a \in Rep2, b \in Rep2, c \in Rep2}
+Logicals == Cmps \cup L2 \cup L3
+CondCase(c, a, b, pre, post) ==
+  [kind |-> "cond", fmin |-> pre \o PrCond(Cond(c, a, b)) \o post, ffull |-> pre \o PrCondFull(Cond(c, a, b)) \o post,
+   inner |-> CondVal(Cond(c, a, b))[1], innerden |-> CondVal(Cond(c, a, b))[2], wrap |-> pre]
+Conds == {CondCase(c, Num(10), Num(20), "", "") : c \in Logicals}
+         \cup {CondCase(c, Var("x"), Bin("+", Var("y"), Num(1)), "", "") : c \in L2 \cup L3}
+         \cup {CondCase(c, Num(1), Neg(Num(1)), "2*(", ")") : c \in Reps \cup L3}
+         \cup {CondCase(c, Var("x"), Var("y"), "1+(", ")") : c \in Reps \cup L3}
 Number(S) == LET s == SetToSeq(S) IN [i \in 1..Len(s) |-> [id |-> i] @@ s[i]]
 ASSUME Theorems
-ASSUME ndJsonSerialize(IOEnv.OUT, Number(Arith \cup Fn \cup Reject \cup Silent))
-ASSUME PrintT(<<"GEN", Cardinality(Arith), Cardinality(Fn), Cardinality(Reject)>>)
+ASSUME ndJsonSerialize(IOEnv.OUT, Number(Arith \cup Fn \cup Reject \cup Silent \cup Conds))
+ASSUME \A c \in Conds : c.innerden = 1
+ASSUME PrintT(<<"GEN", Cardinality(Arith), Cardinality(Fn), Cardinality(Reject), Cardinality(Conds)>>)
 =============================================================================
